@@ -13,15 +13,15 @@ U = dict(
     o_order=dict(name="q_ordered_pop_consultation_order"),
     o_pop_local=dict(name="q_ordered_pop_local_contract", bounded=B),
     o_shared=dict(name="q_ordered_shared_push_pop", bounded=B, timeout=900),
-    o_idle0=dict(name="q_ordered_idle_pop_finds_work_start0", bounded=B, timeout=1500, unwind_is_obligation="C04.pop_returns_from_every_reachable_state[unwinding assertion]"),
-    o_idle1=dict(name="q_ordered_idle_pop_finds_work_start1", bounded=B, timeout=1500, unwind_is_obligation="C04.pop_returns_from_every_reachable_state[unwinding assertion]"),
-    o_push=dict(name="q_ordered_local_push", bounded=B, timeout=1500, unwind_is_obligation="C04.push_returns_from_every_reachable_state[unwinding assertion]"),
+    o_idle0=dict(name="q_ordered_idle_pop_finds_work_start0", bounded=B, timeout=1500, unwind=5, unwind_is_obligation="C04.pop_returns_from_every_reachable_state[unwinding assertion]"),
+    o_idle1=dict(name="q_ordered_idle_pop_finds_work_start1", bounded=B, timeout=1500, unwind=5, unwind_is_obligation="C04.pop_returns_from_every_reachable_state[unwinding assertion]"),
+    o_push=dict(name="q_ordered_local_push", bounded=B + " (push unit: capacity 4)", timeout=1800, unwind=7, unwind_is_obligation="C04.push_returns_from_every_reachable_state[unwinding assertion]"),
     p_tick=dict(name="p_tick_contract"),
     p_order=dict(name="p_pop_consultation_order", bounded="local worker of capacity 2, any content"),
     p_shared=dict(name="p_shared_push_pop", bounded="<= 3 items"),
-    p_push=dict(name="p_local_push", bounded="capacity 2, any content", unwind_is_obligation="C04.push_returns_from_every_reachable_state[unwinding assertion]"),
-    p_idle0=dict(name="p_idle_pop_finds_work_start0", bounded="sibling of capacity 2, any content", unwind_is_obligation="C04.pop_returns_from_every_reachable_state[unwinding assertion]"),
-    p_idle1=dict(name="p_idle_pop_finds_work_start1", bounded="sibling of capacity 2, any content", unwind_is_obligation="C04.pop_returns_from_every_reachable_state[unwinding assertion]"),
+    p_push=dict(name="p_local_push", bounded="capacity 2, any content", unwind=6, unwind_is_obligation="C04.push_returns_from_every_reachable_state[unwinding assertion]"),
+    p_idle0=dict(name="p_idle_pop_finds_work_start0", bounded="sibling of capacity 2, any content", unwind=6, unwind_is_obligation="C04.pop_returns_from_every_reachable_state[unwinding assertion]"),
+    p_idle1=dict(name="p_idle_pop_finds_work_start1", bounded="sibling of capacity 2, any content", unwind=6, unwind_is_obligation="C04.pop_returns_from_every_reachable_state[unwinding assertion]"),
 )
 FUNCS = ["OrderedWorkStealQueue::{push_with_priority, pop}", "OrderedLocalQueue::{push_with_priority, push_to_global, pop, pop_local, tick, can_steal, max_steal}",
          "WorkStealQueue::{push, pop}", "LocalQueue::{push, pop, tick}"]
